@@ -3,7 +3,7 @@
 'use strict';
 
 import {
-  sortByKey,
+  stableSort,
   shallowCopy,
   accumulateLengths,
   splitLines,
@@ -118,7 +118,9 @@ export function flattenStringDiff(
     val = splitLines(val);
   }
   let lineToChar = [0].concat(accumulateLengths(val));
-  let flattened: IDiffArrayEntry[] = [];
+  // Entries with the line they stem from; whole lines inserted before a line
+  // rank before the changes within that line
+  let flattened: { e: IDiffArrayEntry; line: number; rank: number }[] = [];
   for (let e of diff) {
     // Frist validate op:
     validateStringDiff(val, e, lineToChar);
@@ -129,7 +131,7 @@ export function flattenStringDiff(
         for (let p of pdiff) {
           let d = shallowCopy(p);
           d.key += lineOffset;
-          flattened.push(d);
+          flattened.push({ e: d, line: e.key, rank: 1 });
         }
       }
     } else {
@@ -143,10 +145,15 @@ export function flattenStringDiff(
         d = opRemoveRange(lineOffset, lineToChar[idx] - lineOffset);
       }
       d.source = e.source;
-      flattened.push(d);
+      flattened.push({ e: d, line: e.key, rank: e.op === 'addrange' ? 0 : 1 });
     }
   }
   // Finally, sort on key (leaving equal items in original order)
   // This is done since the original diffs are sorted deeper first!
-  return sortByKey(flattened, 'key');
+  // Entries that start at the same character are ordered by line, the
+  // insertion of whole lines before a line preceding the changes within it
+  // (a decision on a line sorts before one on the string as a whole).
+  return stableSort(flattened, function (a, b) {
+    return a.e.key - b.e.key || a.line - b.line || a.rank - b.rank;
+  }).map(x => x.e);
 }
